@@ -1,10 +1,10 @@
 SPECIFICATION HSpec
 CONSTANTS
-  Clients <- TwoClients
+  Clients <- OneClient
   MaxExch = 5
   MaxDupReq = 0
   MaxDupResp = 2
-  MaxInject = 2
+  MaxInject = 4
   MaxTC = 2
   Thetas <- ThetasGen
   CtxCap = 2
